@@ -2,3 +2,4 @@ pub mod bigu;
 pub mod poly;
 pub mod ser;
 pub mod galois;
+pub mod rlwe;
